@@ -29,7 +29,11 @@ UNPROVED = [
     "invariance to 1e-12, monotonicity in doubles) is checked on every run against 60-digit decimal/fractions, not proved; "
     "the theorems are over the reals",
 ]
-RULE = ("(spends, slack) pairs generated from the seed: 0..200 spends, eps log-uniform in [1e-12,1e3] in several styles "
+RULE = ("(a) operation sequences on ONE long-lived accountant (spends, slack moved up and down, check, remaining, repeated "
+        "no-argument total() calls, total() immediately before and after a slack change with no spend in between): after "
+        "every operation the live total()/len/spent_budget are compared with the KOV reference of the accountant's own "
+        "(spent_budget, slack), with the pure function on the same state (bit-identical) and with the Lean model; "
+        "(b) (spends, slack) pairs generated from the seed: 0..200 spends, eps log-uniform in [1e-12,1e3] in several styles "
         "(homogeneous small, mixed, wide, tiny, large, boundary values, eps=0 with delta>0), delta in [0,1] incl. 0, tiny, 1, "
         "slack in [0,1] incl. 0, denormal, tiny, near 1 and 1; each is evaluated by the real total(spent_budget=, slack=) "
         "and by the Lean model on doubles; non-trivial when slack > 0 and there are >= 2 spends (the advanced-composition "
@@ -208,9 +212,14 @@ FIXED = [
 # ---------------------------------------------------------------- direct checks on the implementation
 
 def check_kov(spends, slack):
-    """None or (signature, what, detail)"""
+    """the pure function total(spent_budget=, slack=) against the reference: (None | (signature, what), info)"""
     te, td = impl_total(spends, slack)
-    ke, kd, branch = kov_ref(spends, slack)
+    return judge_kov(te, td, spends, slack)
+
+
+def judge_kov(te, td, spends, slack, ref=None):
+    """a reported total (te, td) against the 60-digit KOV value of (spends, slack)"""
+    ke, kd, branch = ref if ref is not None else kov_ref(spends, slack)
     re_, rd = rel_err(te, ke), rel_err(td, kd)
     bad = None
     if not (abs(rd) <= 1e-9):
@@ -287,9 +296,237 @@ def _short(spends):
     return f"{spends[:3]}…(+{len(spends) - 3} more, full list in the replay file)"
 
 
+# ---------------------------------------------------------------- live accountants (state kept between calls)
+
+SIG_STALE = "C05:total:stale-live-state"
+BudgetError = dp.utils.BudgetError
+
+
+def gen_live(r):
+    """(ce, cd, slack0, ops): an operation sequence for ONE long-lived accountant.  Every sequence contains no-argument
+    total() calls immediately before and after slack changes with no spend in between, slack moving up and down."""
+    if r.chance(0.7):
+        ce, cd = float("inf"), 1.0
+    else:
+        ce, cd = float(r.loguniform(1.0, 100.0)), float(r.uniform(0.3, 1.0))
+    top = min(cd, 0.9)
+
+    def a_slack():
+        m = r.u01()
+        if m < 0.25:
+            return 0.0
+        if m < 0.35:
+            return float(r.choice([5e-324, 1e-300, 1e-30]))
+        if m < 0.7:
+            return float(r.loguniform(1e-9, 0.1) * top)
+        return float(r.uniform(0.0, top))
+
+    base = (1.0 if math.isinf(ce) else ce) * r.loguniform(1e-3, 0.05)
+    style = r.choice(["homog", "homog-jitter", "mixed"])
+
+    def a_spend():
+        e = gen_eps(r, style, base) if style != "mixed" else r.loguniform(1e-3, 1.0)
+        d = r.choice([0.0, 0.0, r.loguniform(1e-12, 1e-4), r.uniform(0, 0.01)])
+        if r.chance(0.04):
+            e, d = 0.0, r.loguniform(1e-9, 1e-3)
+        return float(e), float(d)
+
+    ops = []
+    for _ in range(r.randint(0, 25)):                   # a history first, so that the advanced branches are live
+        ops.append(["spend", *a_spend()])
+    for _ in range(r.randint(4, 14)):
+        m = r.u01()
+        if m < 0.3:
+            ops.append(["spend", *a_spend()])
+        elif m < 0.65:
+            ops += [["total", r.randint(1, 3)], ["slack", a_slack()], ["total", r.randint(1, 2)]]
+            if r.chance(0.5):
+                ops += [["slack", a_slack()], ["total", 1]]
+        elif m < 0.75:
+            ops.append(["check", *a_spend()])
+        elif m < 0.85:
+            ops.append(["remaining", r.randint(1, 5)])
+        else:
+            ops.append(["total", r.randint(1, 3)])
+    return ce, cd, a_slack() if r.chance(0.5) else 0.0, ops
+
+
+LIVE_FIXED = [
+    (float("inf"), 1.0, 0.0, [["spend", 0.1, 1e-6]] * 50 + [["total", 1], ["slack", 1e-3], ["total", 2], ["spend", 0.1, 1e-6],
+                                                           ["slack", 0.0], ["total", 1], ["slack", 0.25], ["total", 1],
+                                                           ["spend", 0.0, 1e-4], ["remaining", 2], ["slack", 1e-9], ["total", 1]]),
+]
+
+
+def run_live(seq, with_ref=True):
+    """Run one sequence on ONE real accountant.  Returns (records, violation | None);
+    records[i] = (kind, len, slack, tot_eps, tot_delta) observed after op i (index 0 = the constructor)."""
+    ce, cd, s0, ops = seq
+    recs = []
+    try:
+        live = quiet_new(ce, cd, s0)
+    except ValueError as ex:
+        return [(("budgetError" if isinstance(ex, BudgetError) else "valueError"), 0, None, None, None)], None
+    spent, slack = [], s0
+    refs = {}
+
+    def observe(kind, step, reps=1):
+        for _ in range(reps):
+            with warnings.catch_warnings():
+                warnings.simplefilter("ignore")
+                with np.errstate(all="ignore"):
+                    t = live.total()
+            te, td = float(t[0]), float(t[1])
+            sb = [(float(e), float(d)) for e, d in live.spent_budget]
+            here = f"ceiling=({ce!r},{cd!r}) after step {step} {ops[step] if step >= 0 else 'constructor'} ({len(sb)} spends, slack={live.slack!r})"
+            if sb != spent or len(live) != len(spent) or live.slack != slack:
+                return ("C05:live:state", f"{here}: spent_budget/len/slack are not what the accepted operations imply "
+                                          f"(len={len(live)}, expected {len(spent)}; slack expected {slack!r})")
+            pure = impl_total(sb, slack)
+            if (te, td) != pure:
+                return (SIG_STALE, f"{here}: the live accountant's total() = ({te!r}, {td!r}) but total(spent_budget=its own "
+                                   f"spends, slack=its own slack) = {pure}")
+            if with_ref:
+                key = (len(sb), slack)
+                if key not in refs:
+                    refs[key] = kov_ref(sb, slack)
+                bad, _ = judge_kov(te, td, sb, slack, refs[key])
+                if bad:
+                    return (bad[0], f"{here}: live total(): {bad[1]}")
+        recs.append((kind, len(spent), slack, te, td))
+        return None
+
+    v = observe("ok", -1)
+    if v:
+        return recs, v + (-1,)
+    for i, op in enumerate(ops):
+        kind, reps = "ok", 1
+        try:
+            with warnings.catch_warnings():
+                warnings.simplefilter("ignore")
+                with np.errstate(all="ignore"):
+                    if op[0] == "spend":
+                        live.spend(op[1], op[2])
+                        spent.append((op[1], op[2]))
+                    elif op[0] == "slack":
+                        live.slack = op[1]
+                        slack = op[1]
+                    elif op[0] == "check":
+                        live.check(op[1], op[2])
+                    elif op[0] == "remaining":
+                        live.remaining(op[1])
+                    else:
+                        reps = op[1]
+        except BudgetError:
+            kind = "budgetError"
+        except ValueError:
+            kind = "valueError"
+        v = observe(kind, i, reps)
+        if v:
+            return recs, v + (i,)
+    return recs, None
+
+
+def quiet_new(ce, cd, slack):
+    with warnings.catch_warnings():
+        warnings.simplefilter("ignore")
+        return dp.BudgetAccountant(ce, cd, slack)
+
+
+def live_lines(seq):
+    ce, cd, s0, ops = seq
+    lines = [f"new {f2b(ce)} {f2b(cd)} {f2b(s0)}"]
+    for op in ops:
+        if op[0] in ("spend", "check"):
+            lines.append(f"{op[0]} {f2b(op[1])} {f2b(op[2])}")
+        elif op[0] == "slack":
+            lines.append(f"slack {f2b(op[1])}")
+        else:
+            lines.append("total")           # remaining / total: queries, the state answer is what is compared
+    return lines
+
+
+def live_stream(ctx):
+    r = ctx.fork("live")
+    seqs = list(LIVE_FIXED) + [gen_live(r) for _ in range(ctx.budget(250, 4000))]
+    all_lines, spans, impl = [], [], []
+    for seq in seqs:
+        recs, viol = run_live(seq)
+        if viol:
+            ctx.violation(viol[0], viol[1], {"kind": "live", "seq": list(seq), "step": viol[2]})
+        n_sl = sum(1 for op in seq[3] if op[0] == "slack")
+        ctx.case(("live", f2b(seq[0]), f2b(seq[2]), hash(repr(seq[3]))) if n_sl and len(seq[3]) > n_sl else None)
+        impl.append(recs)
+        ls = live_lines(seq)
+        spans.append((len(all_lines), len(ls)))
+        all_lines += ls
+    ctx.sample({"live_sequence": {"ceiling": [seqs[1][0], seqs[1][1]], "slack0": seqs[1][2], "ops_tail": seqs[1][3][-8:],
+                                  "impl_after_each_op_tail": impl[1][-8:]}})
+    if ctx.searching and ctx.violations:
+        return
+    outs = leanio.run_driver("Accountant", all_lines)
+    for seq, recs, (a, ln) in zip(seqs, impl, spans):
+        good = True
+        for j, (rec, out) in enumerate(zip(recs, outs[a:a + ln])):
+            w = out.split()
+            kind, n, sl, te, td = rec
+            if w[0] == "nostate" and kind != "ok":
+                break
+            okk = w[0] == kind
+            if okk and sl is not None:
+                okk = int(w[1]) == n and b2f(int(w[2])) == sl and not w[3].startswith("total-")
+                if okk:
+                    me, md = b2f(int(w[3])), b2f(int(w[4]))
+                    okk = md == td and ((me == te) if sl == 0 else
+                                        gen.rel_close(me, te, 1e-12, 4.5e-16 * sum(o[1] for o in seq[3][:j] if o[0] == "spend")))
+            if not okk:
+                # accept/refuse decisions within rounding of a finite ceiling may legitimately differ when exp/log are involved
+                if w[0] != kind and not math.isinf(seq[0]) and te is not None and \
+                        (gen.rel_close(te, seq[0], 1e-9) or seq[3][j - 1][0] in ("slack", "spend", "check")) and \
+                        _near_ceiling(seq, j - 1):
+                    ctx.boundary_skipped += 1
+                else:
+                    ctx.disagree("accountant.live", {"seq": list(seq), "step": j - 1}, out, list(rec))
+                good = False
+                break
+        if good:
+            ctx.trace_ok()
+    ctx.count("live_ops_compared", len(all_lines))
+
+
+def _near_ceiling(seq, upto):
+    """is the decision at op `upto` within 1e-11 (relative) of the epsilon ceiling?"""
+    ce, cd, s0, ops = seq
+    try:
+        a = quiet_new(ce, cd, s0)
+        for op in ops[:upto]:
+            try:
+                if op[0] == "spend":
+                    a.spend(op[1], op[2])
+                elif op[0] == "slack":
+                    a.slack = op[1]
+            except ValueError:
+                pass
+        op = ops[upto]
+        with warnings.catch_warnings():
+            warnings.simplefilter("ignore")
+            if op[0] in ("spend", "check"):
+                t = a.total(spent_budget=a.spent_budget + [(op[1], op[2])])
+            elif op[0] == "slack":
+                t = a.total(slack=op[1])
+            else:
+                return False
+        return gen.rel_close(float(t[0]), ce, 1e-11)
+    except Exception:  # noqa
+        return False
+
+
 # ---------------------------------------------------------------- entry points
 
 def check(ctx):
+    live_stream(ctx)
+    if ctx.searching and ctx.violations:
+        return
     r = ctx.fork("cases")
     n = ctx.budget(4000, 40000)
     cases = [(list(s), float(sl), "fixed") for s, sl in FIXED] + [gen_case(r) for _ in range(n)]
@@ -336,6 +573,12 @@ def replay(ctx, data):
     d = data["data"]
     spends = [(float(u(e)), float(u(dl))) for e, dl in d["spends"]]
     slack = float(u(d["slack"]))
+    if d["kind"] == "live":
+        def fix(x):
+            return [fix(y) for y in x] if isinstance(x, list) else u(x)
+        seq = fix(d["seq"])
+        _, viol = run_live((float(seq[0]), float(seq[1]), float(seq[2]), seq[3]))
+        return viol is not None
     if d["kind"] == "kov":
         return check_kov(spends, slack)[0] is not None
     if d["kind"] == "perm":
